@@ -122,6 +122,14 @@ func (w *dnsWorld) c08AfterOp(op *dnsOp) {
 				}
 				if op.end < dl-dnsMargin {
 					s.Probe("dns.fresh-cache-hit")
+					if fx, isFixed := w.cfg.fixed[dnsAllNames[op.name]]; isFixed && fx >= 60 && op.start-e.insertedAt > 17*time.Second {
+						for _, o := range w.ops {
+							if o != op && o.key == op.key && o.task != "" && (!o.done || o.endStep >= op.startStep) && o.startStep <= w.s.Step {
+								s.Probe("dns.c08-concurrent-hits-on-fixed-ttl-entry-past-pack-tolerance")
+								break
+							}
+						}
+					}
 					remaining := (dl - op.start + time.Second - 1) / time.Second
 					for _, rr := range m.Answer {
 						if ttl := time.Duration(rr.Header().Ttl); ttl > remaining+15+1 {
@@ -348,6 +356,16 @@ func dnsScenarioC08(w *dnsWorld) {
 		s.Notef("fixed_domain_ttl %v", w.cfg.fixed)
 	}
 	w.drawSpecs([]int{0, 1, 2, 3}, false, false)
+	if w.cfg.fixed[dnsAllNames[w.names[0]]] == 60 {
+		// the name with the 60 s fixed TTL is answered with 120 s records by every upstream:
+		// its entries live 60 s, long enough for the packed reply to leave its tolerance
+		for k, sp := range w.spec {
+			if k[1] == w.names[0] {
+				sp.ttlIdx = 3
+				w.spec[k] = sp
+			}
+		}
+	}
 	rounds := T.Range(2, 9)
 	nCli := 3
 	for r := 0; r < rounds && !s.Failed(); r++ {
@@ -358,8 +376,8 @@ func dnsScenarioC08(w *dnsWorld) {
 			// revisit a cached key most of the time
 			if cur := w.sortedEntries(); len(cur) > 0 && T.Chance(3, 4) {
 				e := cur[T.Choose(len(cur))]
-				if i == 0 && w.focus != nil {
-					e = w.focus
+				if w.focus != nil && (i == 0 || (i == 1 && len(w.ops)%2 == 0)) {
+					e = w.focus // every other round a second client asks the same question concurrently
 				}
 				op.name, op.qtype = e.key.name, e.key.qtype
 			} else {
